@@ -438,6 +438,11 @@ pub struct E2eCase {
     /// `append:` in the front-matter of the given document (the given one then only runs `true`)
     #[serde(default)]
     pub via: u8,
+    /// a second test case follows in the same document (Markdown, via 0); Some(true): it sets
+    /// VAR=J inline, Some(false): it has no inline configuration. Each test case must see the
+    /// value of *its own* highest layer although the shell state of the first one is carried over
+    #[serde(default)]
+    pub follower: Option<bool>,
 }
 
 fn e2e_strategy() -> BoxedStrategy<E2eCase> {
@@ -456,6 +461,14 @@ fn e2e_strategy() -> BoxedStrategy<E2eCase> {
         .prop_map(|(cram, cli_stream, cli_crlf, def_stream, inl_stream, def_crlf, inl_crlf, def_env, inl_env, via)| (cram && via == 0, cli_stream, cli_crlf, def_stream, inl_stream, def_crlf, inl_crlf, def_env, inl_env, via))
         .prop_map(|(cram, cli_stream, cli_crlf, def_stream, inl_stream, def_crlf, inl_crlf, def_env, inl_env, via)| E2eCase {
             via,
+            // derived from the other choices (no further tuple slot): a follower in half of the
+            // plain Markdown cases, with its own inline value where the first one has none or
+            // the document sets a default
+            follower: if !cram && via == 0 && (cli_stream + def_stream + inl_crlf) % 2 == 0 {
+                if def_env { Some((cli_crlf + inl_stream) % 2 == 0) } else { Some(true) }
+            } else {
+                None
+            },
             cram,
             cli_stream,
             cli_crlf,
@@ -520,6 +533,21 @@ fn check_e2e(c: &E2eCase) -> V {
             lines.push(err_line);
         }
     }
+    // the follower has no inline stream / CR LF setting: command line > document default > format
+    let follower_lines = c.follower.map(|inline_j| {
+        let stream2 = if c.cli_stream == 1 { 3 } else if c.cli_stream == 2 { 1 } else if c.def_stream != 0 { c.def_stream } else { 1 };
+        let keep2 = if c.cli_crlf == 1 { true } else if c.cli_crlf == 2 { false } else { c.def_crlf == 2 };
+        let var2 = if inline_j { "J" } else { "D" }; // generated only with a document default when not inline
+        let eol2 = if keep2 { "\\r (escaped)" } else { "" };
+        let mut l = vec![];
+        if stream2 != 2 {
+            l.push(format!("out-{var2}{eol2}"));
+        }
+        if stream2 != 1 {
+            l.push(format!("err{eol2}"));
+        }
+        l
+    });
     let mut args: Vec<String> = vec!["test".into(), "-r".into(), "json".into(), "--no-color".into()];
     match c.cli_stream {
         1 => args.push("--combine-output".into()),
@@ -573,6 +601,15 @@ fn check_e2e(c: &E2eCase) -> V {
             d.push('\n');
         }
         d.push_str("```\n");
+        if let (Some(inline_j), Some(lines2)) = (c.follower, &follower_lines) {
+            let cfg2 = if inline_j { " {environment: {VAR: J}}" } else { "" };
+            d.push_str(&format!("\n# the next test case\n\n```scrut{cfg2}\n$ {command}\n"));
+            for l in lines2 {
+                d.push_str(l);
+                d.push('\n');
+            }
+            d.push_str("```\n");
+        }
         d
     };
     let path = dir.path().join(if c.cram { "doc.t" } else { "doc.md" });
@@ -619,9 +656,10 @@ fn check_e2e(c: &E2eCase) -> V {
         .label(if c.cram { "cram" } else { "markdown" })
         .label_if(c.def_env && c.inl_env, "environment_conflict")
         .label_if(conflict, "two_layers_set_a_key")
+        .label_if(c.follower.is_some(), "second_test_case_with_another_environment_layer")
         .label_if(c.via != 0, "test_case_of_a_prepended_or_appended_document");
     let kinds = json_result_kinds(&run.stdout).unwrap_or_default();
-    let want = vec!["success".to_string(); if c.via == 0 { 1 } else { 2 }];
+    let want = vec!["success".to_string(); if c.via != 0 || c.follower.is_some() { 2 } else { 1 }];
     if run.code == Some(0) && kinds == want {
         v
     } else {
